@@ -308,7 +308,7 @@ pub fn minimise(r: &Replay, budget_s: f64) -> Replay {
     let t0 = Instant::now();
     let mut best = r.clone();
     let mut n = 0u64;
-    if best.family == "D" {
+    if best.family == "D" || best.family == "C" {
         // scenario
         let mut progress = true;
         while progress && t0.elapsed().as_secs_f64() < budget_s * 0.7 {
@@ -337,7 +337,7 @@ pub fn minimise(r: &Replay, budget_s: f64) -> Replay {
         }
     }
     // histories of operations (world / meta-table families): drop chunks of operations
-    if best.family != "D" && best.scenario.get("ops").and_then(|o| o.as_array()).is_some() {
+    if best.family != "D" && best.family != "C" && best.scenario.get("ops").and_then(|o| o.as_array()).is_some() {
         let mut ops: Vec<Value> = best.scenario["ops"].as_array().unwrap().clone();
         let mut chunk = (ops.len() / 2).max(1);
         loop {
